@@ -27,7 +27,7 @@ demo_cmd=$(python3 -c "import json,sys;print(json.load(open('$D/meta.json'))['de
 say "demo_cmd: $demo_cmd"
 if [ -s "$D/demo.diff" ]; then git apply "$D/demo.diff" 2>>"$LOG" || { say "STEP2 demo.diff does not apply on patched tree"; exit 1; }; fi
 # demo with patch
-demo_cmd_local=$(echo "$demo_cmd" | sed "s#/tmp/seed-[a-z0-9]*/repo#$W#g")
+demo_cmd_local=$(echo "$demo_cmd" | sed -E "s#^cd [^&]*&& *##; s#/tmp/seed-[a-z0-9]*/repo#$W#g")
 ( cd "$W" && timeout 3000 bash -c "$demo_cmd_local" ) >"$D/demo_with.log" 2>&1; rc_with=$?
 say "demo with patch: rc=$rc_with"
 # existing tests with patch (demo test included, ignore it)
@@ -51,20 +51,4 @@ git apply -R "$D/patch.diff" 2>>"$LOG" || { say "cannot revert patch"; exit 1; }
 say "demo without patch: rc=$rc_without"
 if [ $rc_with -ne 0 ] && [ $rc_without -eq 0 ]; then say "DEMO OK (fails with, passes without)"; else say "DEMO NOT CONFIRMED"; fi
 cd /verif
-# run checks against /repo with the patch applied (serialized)
-(
-  flock 9
-  if [ -n "$(git -C /repo status --porcelain)" ]; then say "/repo not clean, skipping check run"; exit 0; fi
-  git -C /repo apply "$D/patch.diff"
-  mkdir -p /tmp/sv-root-$ID/evidence /tmp/sv-root-$ID/replays; cp /verif/known_findings.json /tmp/sv-root-$ID/
-  for c in "${CHECKS[@]}"; do
-    s=$(date +%s)
-    out=$(VERIF_ROOT=/tmp/sv-root-$ID ./check $c --tier quick 2>&1); rc=$?
-    e=$(date +%s)
-    say "CHECK $c on seeded $ID: rc=$rc $((e-s))s :: $(echo "$out" | grep -E '^(OK|VIOLATION|INCONCLUSIVE|  signature)' | head -3 | tr '\n' '|' | cut -c1-300)"
-  done
-  git -C /repo checkout -- .
-  mkdir -p "$D/replays"; cp /tmp/sv-root-$ID/replays/*.json "$D/replays/" 2>/dev/null
-) 9>/tmp/repo-seed.lock
-rm -rf /tmp/sv-root-$ID
 exit 0
